@@ -142,8 +142,28 @@ type Mutex struct {
 
 // Stream is a file stream object.
 type Stream struct {
-	Name string
-	Open bool
+	Name     string
+	Open     bool
+	Dir      string // input | output | io
+	IfExists string // "" | supersede | append | overwrite | rename
+	Written  string // what write-string put into it while it was open
+}
+
+// Content is what the file holds in the end when it held init before the stream was opened.
+func (s *Stream) Content(init string) string {
+	switch {
+	case s.Dir == "input":
+		return init
+	case s.IfExists == "supersede" || s.IfExists == "rename":
+		return s.Written
+	case s.IfExists == "append":
+		return init + s.Written
+	}
+	// overwrite (and the default): written over the old bytes from the start
+	if len(s.Written) < len(init) {
+		return s.Written + init[len(s.Written):]
+	}
+	return s.Written
 }
 
 // Condition is a signalled error.
@@ -192,7 +212,15 @@ func Show(v Value) string {
 	case *Instance:
 		return "#<instance>"
 	case multi:
-		return Show(primary(t))
+		parts := make([]string, len(t))
+		for i, e := range t {
+			parts[i] = Show(e)
+		}
+		return "#values(" + strings.Join(parts, " ") + ")"
+	case *Builtin:
+		return "#<function>"
+	case *HashTable:
+		return "#<hash-table>"
 	}
 	return fmt.Sprintf("#<?%T>", v)
 }
@@ -261,6 +289,17 @@ type Mutations struct {
 	// CleanupExitRerunsCleanup: when a cleanup form leaves the unwind-protect by return-from / return / go,
 	// the cleanup forms are started a second time.
 	CleanupExitRerunsCleanup bool
+	// StreamKeptOnError: with-open-file does not close when left by an error.
+	StreamKeptOnError bool
+	// HOFSwallows: the named built-in higher-order function (mapcar, every, reduce, sort, ... or "*" for all of them)
+	// treats a return-from / return / go that leaves the function it called as that function's value (true) and
+	// carries on with the next element.
+	HOFSwallows string
+	// ValueSwallow: an exit that leaves a form in the named kind of value position (arg, init, setq, test, loop-form,
+	// with-arg, value) is dropped, nil is taken as the value and the enclosing form carries on.
+	ValueSwallow string
+	// ClassLostInHOF: an error that passes a built-in higher-order function is re-signalled as a plain error.
+	ClassLostInHOF bool
 	// LambdaConsumesNilReturn: the call of an anonymous function consumes a (return ..) / (return-from nil ..) that
 	// passes through it on its way to a nil block outside and yields its value as the value of the call.
 	LambdaConsumesNilReturn bool
@@ -503,6 +542,9 @@ func (in *Interp) evalList(l List, e *env) Value {
 		in.signal("program-error", "illegal function call")
 	}
 	args := l[1:]
+	if v, ok := in.evalR8(strings.ToLower(string(head)), args, e); ok {
+		return v // the forms of r8.go
+	}
 	if v, ok := in.evalMore(strings.ToLower(string(head)), args, e); ok {
 		return v // the forms of more.go
 	}
@@ -513,6 +555,9 @@ func (in *Interp) evalList(l List, e *env) Value {
 		if s, isSym := args[0].(Sym); isSym {
 			fn := in.Funcs[strings.ToLower(string(s))]
 			if fn == nil {
+				if isBuiltinName(strings.ToLower(string(s))) {
+					return &Builtin{Name: strings.ToLower(string(s))}
+				}
 				in.signal("undefined-function", "function %s is undefined", s)
 			}
 			return fn
@@ -525,7 +570,7 @@ func (in *Interp) evalList(l List, e *env) Value {
 		in.progn(args[1:], e)
 		return v
 	case "if":
-		if truthy(in.eval(args[0], e)) {
+		if truthy(primary(in.value("test", args[0], e))) {
 			return in.eval(args[1], e)
 		}
 		if 2 < len(args) {
@@ -533,19 +578,19 @@ func (in *Interp) evalList(l List, e *env) Value {
 		}
 		return nil
 	case "when":
-		if truthy(in.eval(args[0], e)) {
+		if truthy(primary(in.value("test", args[0], e))) {
 			return in.condBody(args[1:], e)
 		}
 		return nil
 	case "unless":
-		if !truthy(in.eval(args[0], e)) {
+		if !truthy(primary(in.value("test", args[0], e))) {
 			return in.condBody(args[1:], e)
 		}
 		return nil
 	case "cond":
 		for _, c := range args {
 			clause := c.(List)
-			v := in.eval(clause[0], e)
+			v := primary(in.value("test", clause[0], e))
 			if truthy(v) {
 				if len(clause) == 1 {
 					return v
@@ -590,9 +635,9 @@ func (in *Interp) evalList(l List, e *env) Value {
 			}
 			var v Value
 			if seq {
-				v = in.eval(init, ne)
+				v = primary(in.value("init", init, ne))
 			} else {
-				v = in.eval(init, e)
+				v = primary(in.value("init", init, e))
 			}
 			ne.vars[name] = &cell{v}
 		}
@@ -601,7 +646,7 @@ func (in *Interp) evalList(l List, e *env) Value {
 		var v Value
 		for i := 0; i+1 < len(args); i += 2 {
 			name := strings.ToLower(string(args[i].(Sym)))
-			v = in.eval(args[i+1], e)
+			v = primary(in.value("setq", args[i+1], e))
 			if c := e.lookup(name); c != nil {
 				c.v = v
 			} else {
@@ -648,7 +693,7 @@ func (in *Interp) evalList(l List, e *env) Value {
 		spec := args[0].(List)
 		name := strings.ToLower(string(spec[0].(Sym)))
 		return in.blockL("", true, e, func(be *env) Value {
-			lv := in.eval(spec[1], be)
+			lv := primary(in.value("loop-form", spec[1], be))
 			items, isList := lv.([]Value)
 			if lv != nil && !isList {
 				in.signal("type-error", "dolist needs a list")
@@ -667,7 +712,7 @@ func (in *Interp) evalList(l List, e *env) Value {
 		spec := args[0].(List)
 		name := strings.ToLower(string(spec[0].(Sym)))
 		return in.blockL("", true, e, func(be *env) Value {
-			cv, isInt := in.eval(spec[1], be).(int64)
+			cv, isInt := primary(in.value("loop-form", spec[1], be)).(int64)
 			if !isInt {
 				in.signal("type-error", "dotimes needs an integer")
 			}
@@ -963,9 +1008,9 @@ func (in *Interp) doLoop(star bool, args List, e *env) Value {
 			}
 			steps = append(steps, st)
 			if star {
-				ne.vars[st.name] = &cell{in.eval(init, ne)}
+				ne.vars[st.name] = &cell{primary(in.value("loop-form", init, ne))}
 			} else {
-				vals[i] = in.eval(init, be)
+				vals[i] = primary(in.value("loop-form", init, be))
 			}
 		}
 		if !star {
@@ -974,20 +1019,20 @@ func (in *Interp) doLoop(star bool, args List, e *env) Value {
 			}
 		}
 		for {
-			if truthy(in.eval(end[0], ne)) {
+			if truthy(primary(in.value("loop-form", end[0], ne))) {
 				return in.progn(end[1:], ne)
 			}
 			in.loopBody(map[bool]string{false: "do", true: "do*"}[star], args[2:], ne)
 			if star {
 				for _, st := range steps {
 					if st.has {
-						ne.vars[st.name].v = in.eval(st.step, ne)
+						ne.vars[st.name].v = primary(in.value("loop-form", st.step, ne))
 					}
 				}
 			} else {
 				for i, st := range steps {
 					if st.has {
-						vals[i] = in.eval(st.step, ne)
+						vals[i] = primary(in.value("loop-form", st.step, ne))
 					}
 				}
 				for i, st := range steps {
@@ -1054,10 +1099,22 @@ func (in *Interp) withMutexLock(args []Node, e *env) (v Value) {
 func (in *Interp) withOpenFile(args []Node, e *env) (v Value) {
 	spec := args[0].(List)
 	name := strings.ToLower(string(spec[0].(Sym)))
+	st := &Stream{Name: name, Dir: "input"}
+	var opts []Value
 	for _, a := range spec[1:] {
-		in.eval(a, e)
+		opts = append(opts, primary(in.value("with-arg", a, e)))
 	}
-	st := &Stream{Name: name, Open: true}
+	for i := 1; i+1 < len(opts); i += 2 {
+		k, _ := opts[i].(Sym)
+		val, _ := opts[i+1].(Sym)
+		switch k {
+		case ":direction":
+			st.Dir = strings.TrimPrefix(string(val), ":")
+		case ":if-exists":
+			st.IfExists = strings.TrimPrefix(string(val), ":")
+		}
+	}
+	st.Open = true
 	in.Streams = append(in.Streams, st)
 	ne := &env{parent: e, vars: map[string]*cell{name: {st}}}
 	defer func() {
@@ -1068,7 +1125,9 @@ func (in *Interp) withOpenFile(args []Node, e *env) (v Value) {
 					st.Open = false
 				}
 			default:
-				st.Open = false
+				if !in.Mut.StreamKeptOnError {
+					st.Open = false
+				}
 			}
 			panic(r)
 		}
@@ -1080,7 +1139,7 @@ func (in *Interp) withOpenFile(args []Node, e *env) (v Value) {
 func (in *Interp) evalArgs(args []Node, e *env) []Value {
 	out := make([]Value, len(args))
 	for i, a := range args {
-		out[i] = in.eval(a, e)
+		out[i] = in.value("arg", a, e)
 	}
 	return out
 }
@@ -1128,6 +1187,17 @@ func (in *Interp) call(name string, argForms []Node, e *env) Value {
 		return nil
 	}
 	args := in.evalArgs(argForms, e)
+	for i := range args {
+		args[i] = primary(args[i]) // an argument is the primary value of its form
+	}
+	return in.callValues(name, args)
+}
+
+// callValues calls the named function with evaluated arguments.
+func (in *Interp) callValues(name string, args []Value) Value {
+	if v, ok := in.callR8(name, args); ok {
+		return v // the functions of r8.go
+	}
 	switch name {
 	case "+":
 		var s int64
@@ -1230,16 +1300,14 @@ func (in *Interp) call(name string, argForms []Node, e *env) Value {
 	case "make-mutex":
 		return in.NewMutex("")
 	case "funcall":
-		fn := in.toFunction(args[0])
-		return in.apply(fn, args[1:])
+		return in.applyAny(args[0], args[1:])
 	case "apply":
-		fn := in.toFunction(args[0])
 		var flat []Value
 		flat = append(flat, args[1:len(args)-1]...)
 		if last, ok := args[len(args)-1].([]Value); ok {
 			flat = append(flat, last...)
 		}
-		return in.apply(fn, flat)
+		return in.applyAny(args[0], flat)
 	}
 	if fn := in.Funcs[name]; fn != nil {
 		return in.apply(fn, args)
